@@ -158,6 +158,12 @@ pub fn norm(path: &str) -> Result<String, i32> {
     for comp in path.split('/') {
         match comp {
             "" | "." => {}
+            // resolved lexically (`..` at the root stays at the root); the approximation - `f/..`
+            // for a regular file f is the parent here, ENOTDIR on Linux - only concerns paths the
+            // import enumeration uses to reach "a directory named without a final component"
+            ".." => {
+                parts.pop();
+            }
             c => parts.push(c),
         }
     }
